@@ -317,6 +317,11 @@ def _variants():
         V("add-decrease-one-point", replace_expr(MP, "MeshPatt.add_decrease", "self.add_point((x, y)).add_point((x + 1, y))", "self.add_point((x, y))"), "fire", "C18-D2"),
         V("shade-replaces", replace_expr(MP, "MeshPatt.shade", "self.shading | set(positions)", "set(positions)"), "fire-or-undecided", "C18-D2"),
         V("add-point-allows-shaded", replace_stmt(MP, "MeshPatt.add_point", "assert pos not in self.shading", ""), "fire", "C18-D2"),
+        V("is-shaded-exclusive-upper", replace_expr(MP, "MeshPatt.is_shaded", "range(lower, upper + 1)", "range(lower, upper)"), "fire", "C18-G1"),
+        V("is-shaded-any", replace_expr(MP, "MeshPatt.is_shaded", "all(((x, y) in self.shading for y in range(lower, upper + 1) for x in range(left, right + 1)))", "any(((x, y) in self.shading for y in range(lower, upper + 1) for x in range(left, right + 1)))"), "fire", "C18-G1"),
+        V("is-pointfree-inclusive-upper", replace_expr(MP, "MeshPatt.is_pointfree", "lower <= self.pattern[idx] < upper", "lower <= self.pattern[idx] <= upper"), "fire", "C18-G1"),
+        V("is-pointfree-index-range", replace_expr(MP, "MeshPatt.is_pointfree", "range(left, right)", "range(left, right + 1)"), "fire", "C18-G1"),
+        V("is-pointfree-swapped-axes", replace_stmt(MP, "MeshPatt.is_pointfree", "(left, lower), (right, upper) = (lower_left, upper_right)", "(lower, left), (upper, right) = (lower_left, upper_right)"), "fire", "C18-G1"),
         V("lemma-skips-wrong-column", replace_expr(MP, "MeshPatt.north_east_shading_lemma_conditions", "n_x not in (x - 1, x)", "n_x not in (x, x + 1)"), "fire", "C18-N1"),
         V("lemma-both-to-either", replace_expr(MP, "MeshPatt.north_east_shading_lemma_conditions", "all(((x, y - 1) in self.shading, (x - 1, y) in self.shading))", "any(((x, y - 1) in self.shading, (x - 1, y) in self.shading))"), "fire", "C18-N1"),
         V("lemma-propagation-reversed", replace_expr(MP, "MeshPatt.north_east_shading_lemma_conditions", "(n_x, y - 1) in self.shading and (n_x, y) not in self.shading", "(n_x, y) in self.shading and (n_x, y - 1) not in self.shading"), "fire", "C18-N1"),
@@ -411,3 +416,37 @@ def run(ctx: Ctx) -> None:  # noqa: F811
 
 
 FLOORS["C18-D2"] = 5
+
+
+# ------------------------------------------------------------------ G1: region tests (geometry of cells and lines)
+
+
+def rule_g1(ctx: Ctx) -> None:
+    """A region is the block of cells [left..right] x [lower..upper] (inclusive).  It is shaded iff every cell of the
+    block is; the points in its interior are those on the lines strictly inside: index i with left <= i < right
+    (line i separates columns i and i + 1) and value v with lower <= v < upper."""
+    from ..skelrules import check_skeleton
+
+    repo = ctx.repo
+    f = repo.need_method("MeshPatt", "is_shaded")
+    ctx.run(check_skeleton, ctx, "C18-G1", f, [
+        "if a1 is None:\n    return a0 in self.shading\n(left, lower), (right, upper) = a0, a1\nreturn all((x, y) in self.shading for y in range(lower, upper + 1) for x in range(left, right + 1))",
+        "if a1 is None:\n    return a0 in self.shading\n(left, lower), (right, upper) = a0, a1\nreturn all((x, y) in self.shading for x in range(left, right + 1) for y in range(lower, upper + 1))",
+    ], "is_shaded(region) = every cell of the inclusive block is shaded", ignore_asserts=True)
+    g = repo.need_method("MeshPatt", "is_pointfree")
+    ctx.run(check_skeleton, ctx, "C18-G1", g, [
+        "(left, lower), (right, upper) = a0, a1\nreturn not any(lower <= self.pattern[i] < upper for i in range(left, right))",
+        "(left, lower), (right, upper) = a0, a1\nreturn all(not lower <= self.pattern[i] < upper for i in range(left, right))",
+    ], "is_pointfree(region) = no point on a line strictly inside the block", ignore_asserts=True)
+
+
+_OLD_RUN3 = run
+
+
+def run(ctx: Ctx) -> None:  # noqa: F811
+    _OLD_RUN3(ctx)
+    ctx.run(rule_g1, ctx)
+
+
+FLOORS["C18-G1"] = 2
+EXPLANATION = EXPLANATION.replace("_add_point_base_shading's splitting, is_shaded / is_pointfree region arithmetic,", "(d) the region tests is_shaded / is_pointfree state the geometry of cells and lines (G1). NOT decided: _add_point_base_shading's splitting,")
